@@ -185,6 +185,73 @@ func ruleCL2(c *Ctx) *rule {
 	return r
 }
 
+// ---- CL7: a variable's value is not glued behind another path ------------------------------------------------------------------------
+
+func ruleCL7(c *Ctx) *rule {
+	r := &rule{ID: "CL7", Engine: "E3", Floor: 0,
+		Statement: "under --clean, the value of a variable that names an output (a lookup in SpokFile.Vars) is never a later element of a filepath.Join: it may already be an absolute path (join(...) always is), and Join(dir, \"/abs\") is dir/abs",
+		Necessity: "the path that is then removed does not exist, the real output stays on disk and --clean reports success"}
+	seenF := map[*ssa.Function]bool{}
+	n := 0
+	for _, s := range c.removalSinks() {
+		if !s.cond["opt:Clean=true"] {
+			continue
+		}
+		for _, f := range closuresOf(s.fn) {
+			if seenF[f] {
+				continue
+			}
+			seenF[f] = true
+			for _, site := range callsTo(f, "path/filepath.Join") {
+				args := site.Common().Args
+				if len(args) != 1 {
+					continue
+				}
+				sl, ok := args[0].(*ssa.Slice)
+				if !ok {
+					continue
+				}
+				arr, ok := sl.X.(*ssa.Alloc)
+				if !ok {
+					continue
+				}
+				for _, addr := range derivedAddrs(arr) {
+					ia, ok := addr.(*ssa.IndexAddr)
+					if !ok {
+						continue
+					}
+					k, isC := constInt(ia.Index)
+					if !isC || k == 0 {
+						continue
+					}
+					for _, ref := range valueReferrers(ia) {
+						st, ok := ref.(*ssa.Store)
+						if !ok || st.Addr != ssa.Value(ia) {
+							continue
+						}
+						vs := c.newSlicer()
+						vs.depth = 0
+						fromVars := false
+						for _, v := range vs.run(st.Val).order {
+							if lk, ok := v.(*ssa.Lookup); ok && isFieldLoad(lk.X, "file.SpokFile.Vars") {
+								fromVars = true
+							}
+						}
+						if fromVars {
+							n++
+							r.bad(fmt.Sprintf("%s Join#%d variable value not first", fname(f), n), c.ipos(site), "the value of a variable is joined behind another path: when it is absolute (the join builtin, or a user-written absolute path) the result is not the declared output")
+						}
+					}
+				}
+			}
+		}
+	}
+	if n == 0 {
+		r.ok("clean variable values kept whole", "-", "no variable value is a later element of a filepath.Join under --clean")
+	}
+	return r
+}
+
 func constStringMember(c *Ctx, short, name string) string {
 	if m, ok := c.pkg(short).Members[name].(*ssa.NamedConst); ok {
 		return constantStringValOf(m)
@@ -2139,6 +2206,55 @@ func ruleRT3(c *Ctx) *rule {
 	return r
 }
 
+// ---- ST9: data is never used as a format string ------------------------------------------------------------------------------------
+
+func ruleST9(c *Ctx) *rule {
+	r := &rule{ID: "ST9", Engine: "E3", Floor: 5,
+		Statement: "in every call of a printf-style function (one with a string parameter named format followed by a variadic parameter) made by the module, the format is a compile-time constant",
+		Necessity: "a format assembled from task names, docstrings, variable values or command output turns every % in them into a verb: listings and messages show %!x(MISSING) instead of the user's text"}
+	n := 0
+	for _, f := range c.ModFuncs {
+		for _, site := range callSites(f) {
+			callee := site.Common().StaticCallee()
+			if callee == nil || site.Common().IsInvoke() {
+				continue
+			}
+			sig := callee.Signature
+			if !sig.Variadic() || sig.Params().Len() < 2 {
+				continue
+			}
+			fi := sig.Params().Len() - 2
+			p := sig.Params().At(fi)
+			if p.Name() != "format" {
+				continue
+			}
+			if b, ok := p.Type().Underlying().(*types.Basic); !ok || b.Kind() != types.String {
+				continue
+			}
+			args := site.Common().Args
+			if sig.Recv() != nil {
+				fi++
+			}
+			if fi >= len(args) {
+				continue
+			}
+			n++
+			key := fmt.Sprintf("%s %s#%d constant format", fname(f), calleeName(site.Common()), n)
+			if _, isC := constString(args[fi]); isC {
+				r.ok(key, c.ipos(site), "constant format")
+				continue
+			}
+			// a format handed down from a caller of a module helper that is itself printf-like is judged at that caller
+			if prm, isParam := args[fi].(*ssa.Parameter); isParam && prm.Name() == "format" {
+				r.ok(key, c.ipos(site), "forwards its own format parameter")
+				continue
+			}
+			r.bad(key, c.ipos(site), "the format string is computed at run time ("+condText(args[fi])+"): any % in the data is interpreted as a verb")
+		}
+	}
+	return r
+}
+
 func usesStderr(site ssa.CallInstruction) bool {
 	for _, a := range site.Common().Args {
 		for _, o := range origins(a) {
@@ -2158,12 +2274,12 @@ func appProperties() []*propertySpec {
 			Explanation: "Static analysis of the whole error path: SH1 proves that the interpreter's error becomes either the returned error or Result.Status of the returned result and that the Ok() methods are Status == 0 / conjunctions over full ranges; RT1 proves that every caller of SpokFile.Run ranges over all results testing Ok() unconditionally, that the not-Ok side ends in an error naming the task and that nil is returned only after exhaustion; RT2 proves error propagation on every module call edge between main and Runner.Run; RT3 proves main reports on the real standard error and calls os.Exit with a non-zero constant on every path from the failure edge; CP8 (shared with C10) proves a digest is only recorded under Ok() of the task's own commands.",
 			NotCovered:  []string{"the exit status computed inside mvdan.cc/sh", "flag combinations rejected by the CLI library before App.Run"},
 			Assumptions: []string{"interp.IsExitStatus decodes exactly the exit-status errors of (*interp.Runner).Run", "msg.Error writes to the process's standard error; os.Exit never returns"},
-			Rules:       []func(*Ctx) *rule{ruleSH1, ruleRT1, ruleRT2, ruleRT3, ruleRT4, ruleGR6, ruleCP8}},
+			Rules:       []func(*Ctx) *rule{ruleSH1, ruleSH2, ruleRT1, ruleRT2, ruleRT3, ruleRT4, ruleGR6, ruleCP8}},
 		{ID: "C12", Title: "--clean removes exactly the declared outputs and the cache, never the project",
 			Explanation: "Static analysis of every os.Remove/RemoveAll call site of the module with its interprocedural entry conditions (greatest fixpoint over the call graph of the Options.*/HasTask guards): CL1 classifies every root of the removed path by backward slicing (only output fields, their Vars/Globs indirections and SpokFile.Dir + cache constants are allowed); CL2 proves each output field and the cache directory reach the removal, globs through their expansion; CL3 proves a test relating each removed path to SpokFile.Dir with an erroring side precedes the removal (at the sink or as a validate-all pass that dominates it); CL4 proves the entry conditions Clean == true and HasTask(\"clean\") == false and that the true side runs the task named \"clean\".",
 			NotCovered:  []string{"that the containment predicate itself is correct for every path string", "directories matched by output globs"},
 			Assumptions: []string{"os.RemoveAll removes exactly the named path and what is below it"},
-			Rules:       []func(*Ctx) *rule{ruleCL1, ruleCL2, ruleCL3, ruleCL4, ruleCL6, ruleTK3, ruleGL2}},
+			Rules:       []func(*Ctx) *rule{ruleCL1, ruleCL2, ruleCL3, ruleCL4, ruleCL6, ruleCL7, ruleTK3, ruleGL2}},
 		{ID: "C19", Title: "Spok writes only where the chosen action says it may",
 			Explanation: "Effect analysis: FX1 enumerates every call of a file-mutating primitive (frozen per-function table for os, per-package table for every other external package the module calls; an unlisted callee makes the check undecided) with its interprocedural entry conditions and proves that any site not under Init/Fmt/Clean is rooted in <SpokFile.Dir>/<cache constants>; FX2 proves the single --fmt write targets Options.Spokfile with Tree.String() and is dominated by the success of Parse and file.New; FX3 proves the --init existence guard on the same path and the O_APPEND/no-O_TRUNC flags; FX4 proves listing branches reach no mutation; FX6 that the logger has no file sink; CL1/CL3/CL4 (shared with C12) cover the --clean branch.",
 			NotCovered:  []string{"effects of user commands and exec(...) builtins (excluded by the property)", "writes performed inside third-party packages classed non-mutating (audited by reading, see DESIGN.md appendix B)"},
@@ -2173,7 +2289,7 @@ func appProperties() []*propertySpec {
 			Explanation: "ST1 proves that the only direct standard-output write reachable from App.Run prints Results.JSON() under Options.JSON; ST6 that JSON() marshals the untouched result of SpokFile.Run with the expected field tags; ST2 that --quiet/--json replace App.stream by the Null stream before anything can read it; ST3 that stdout/stderr capture buffers are paired with the right stream and result fields and Result.Cmd is the executed text; ST4 that listings collect map keys, sort them and only then write; ST5 the default dispatch; GR6 (shared with C03) gives one result per task in execution order.",
 			NotCovered:  []string{"encoding/json's rendering", "tabwriter layout", "docstring text (value-level)"},
 			Assumptions: []string{"fmt.Println writes to the process's standard output; io.Discard discards; io.MultiWriter duplicates writes to all its writers"},
-			Rules:       []func(*Ctx) *rule{ruleST1, ruleST2, ruleST3, ruleST4, ruleST5, ruleST6, ruleST7, ruleST8, ruleGR6, ruleRT4}},
+			Rules:       []func(*Ctx) *rule{ruleST1, ruleST2, ruleST3, ruleST4, ruleST5, ruleST6, ruleST7, ruleST8, ruleST9, ruleGR6, ruleRT4}},
 	}
 }
 
